@@ -20,7 +20,7 @@ open Repe Repe.Driver
 def limitOf (s : String) : Option (Option Nat) :=
   if s = "-" then some none else s.toNat?.map some
 
-def paths : List String := ["inline", "off", "joff", "push", "pushoff", "bcast", "proxy"]
+def paths : List String := ["inline", "off", "joff", "push", "pushoff", "pushn", "bcast", "proxy"]
 
 def showReport (path : String) (f : LimitFacts) (size l : Nat) : String :=
   if path = "proxy" then " ; report -"
